@@ -1492,7 +1492,7 @@ def run(ck):
             R.dist["directed"] += 1
             ck.case("directed:%s:%s" % (name, be), sample={"scenario": name, "backend": be, "ops": [nodedb.short(x, 90) for x in g.lines[5:12]] + ["..."]})
     # ---- 2. seeded histories
-    n = 1200 if thorough else 55
+    n = 1000 if thorough else 55
     for i in range(n):
         for be in ("adf", "hdf5"):
             nf = ck.rng.choice([1, 2, 2, 3, 3])
